@@ -3,6 +3,7 @@
 package resmgr
 
 import (
+	"strings"
 	"fmt"
 
 	cfgapi "github.com/containers/nri-plugins/pkg/apis/config/v1alpha1"
@@ -643,6 +644,153 @@ func c14InputCases(thorough bool) []*scenario {
 				t.shape = shape
 				t.name = base.name + "/" + shape
 				mk(pol, fmt.Sprintf("%s/shape/%s", pol, t.name), nil, &t, qosOf(base))
+			}
+		}
+	}
+	return out
+}
+
+
+// ---------------------------------------------------------------------------
+// C19: balloon-type selection
+
+type c19Case struct {
+	s     *scenario
+	kind  string
+	order []string
+	want  string
+}
+
+func c19BalloonCases(thorough bool) []c19Case {
+	user := map[string]*blcfg.BalloonDef{
+		"byns":   {Name: "byns", Namespaces: []string{"team-*"}, MaxCpus: 2},
+		"byexpr": {Name: "byexpr", MatchExpressions: []resmgrapi.Expression{{Key: "pod/labels/tier", Op: resmgrapi.Equals, Values: []string{"db"}}}, MaxCpus: 2},
+		"catch":  {Name: "catch", Namespaces: []string{"*"}, MaxCpus: 2},
+		"named":  {Name: "named", MaxCpus: 2},
+	}
+	builtin := map[string]*blcfg.BalloonDef{
+		"reserved": {Name: "reserved", MaxCpus: 2},
+		"default":  {Name: "default", MaxCpus: 4},
+	}
+	type kindSpec struct {
+		name   string
+		ns     string
+		labels map[string]string
+		ann    map[string]string
+	}
+	kinds := []kindSpec{
+		{"kube-system", "kube-system", nil, nil},
+		{"reserved-ns-glob", "monitoring", nil, nil},
+		{"ns-glob", "team-a", nil, nil},
+		{"expr", "other", map[string]string{"tier": "db"}, nil},
+		{"ns+expr", "team-b", map[string]string{"tier": "db"}, nil},
+		{"none", "other", nil, nil},
+		{"annotated-bare", "team-a", nil, map[string]string{annBalloon: "named"}},
+		{"annotated-pod", "kube-system", nil, map[string]string{annBalloon + "/pod": "named", annBalloon: "byns"}},
+		{"annotated-container", "other", map[string]string{"tier": "db"}, map[string]string{annBalloon + "/container.c": "named", annBalloon + "/pod": "byns"}},
+		{"annotated-other-container", "team-a", nil, map[string]string{annBalloon + "/container.zzz": "named"}},
+		{"annotated-unknown", "team-a", nil, map[string]string{annBalloon: "no-such-type"}},
+		{"annotated-builtin-default", "team-a", nil, map[string]string{annBalloon: "default"}},
+	}
+	var orders [][]string
+	base := []string{"byns", "byexpr", "catch", "named"}
+	perms := [][]int{{0, 1, 2, 3}, {2, 0, 1, 3}, {1, 0, 3, 2}, {3, 2, 1, 0}, {1, 2, 0, 3}, {0, 2, 1, 3}}
+	for _, p := range perms {
+		o := []string{}
+		for _, i := range p {
+			o = append(o, base[i])
+		}
+		orders = append(orders, o)
+	}
+	if thorough {
+		orders = nil
+		var rec func(cur []string, used [4]bool)
+		rec = func(cur []string, used [4]bool) {
+			if len(cur) == 4 {
+				orders = append(orders, append([]string{}, cur...))
+				return
+			}
+			for i := 0; i < 4; i++ {
+				if !used[i] {
+					used[i] = true
+					rec(append(cur, base[i]), used)
+					used[i] = false
+				}
+			}
+		}
+		rec(nil, [4]bool{})
+	}
+	// placements of explicitly defined built-in types: none, reserved last, default first
+	placements := []string{"implicit", "reserved-last", "default-first"}
+	var out []c19Case
+	for _, order := range orders {
+		for _, pl := range placements {
+			full := append([]string{}, order...)
+			switch pl {
+			case "reserved-last":
+				full = append(full, "reserved")
+			case "default-first":
+				full = append([]string{"default"}, full...)
+			}
+			var defs []*blcfg.BalloonDef
+			for _, n := range full {
+				if d, ok := user[n]; ok {
+					defs = append(defs, d)
+				} else {
+					defs = append(defs, builtin[n])
+				}
+			}
+			// effective order: implicit reserved is prepended, implicit default appended
+			eff := append([]string{}, full...)
+			if pl != "reserved-last" {
+				eff = append([]string{"reserved"}, eff...)
+			}
+			if pl != "default-first" {
+				eff = append(eff, "default")
+			}
+			for _, k := range kinds {
+				want := ""
+				// reference selection
+				annv, annOK := "", false
+				for _, key := range []string{annBalloon + "/container.c", annBalloon + "/pod", annBalloon} {
+					if v, ok := k.ann[key]; ok {
+						annv, annOK = v, true
+						break
+					}
+				}
+				switch {
+				case annOK:
+					want = "<error>"
+					for _, n := range eff {
+						if n == annv {
+							want = n
+						}
+					}
+				default:
+					want = "default"
+					for _, n := range eff {
+						match := false
+						switch n {
+						case "byns":
+							match = strings.HasPrefix(k.ns, "team-")
+						case "byexpr":
+							match = k.labels["tier"] == "db"
+						case "catch":
+							match = true
+						case "reserved":
+							match = k.ns == "kube-system" || strings.HasPrefix(k.ns, "monitor")
+						}
+						if match {
+							want = n
+							break
+						}
+					}
+				}
+				ps := podSpec{name: "p", ns: k.ns, qos: "Burstable", annotations: k.ann, labels: k.labels, ctrs: []ctrSpec{{name: "c", t: tB500}}}
+				s := &scenario{name: fmt.Sprintf("bl/select/%s/%s/%s", strings.Join(order, ","), pl, k.name), policy: polBalloons, machine: machine8(),
+					cfgs: []cfgSpec{blCfg("sel", defs, func(c *cfgapi.BalloonsPolicy) { c.Spec.Config.ReservedPoolNamespaces = []string{"monitor*"} })},
+					pods: []podSpec{ps}, maxInc: 1}
+				out = append(out, c19Case{s: s, kind: k.name, order: full, want: want})
 			}
 		}
 	}
